@@ -27,6 +27,11 @@ pub enum Corrupt {
     /// drop / append one character
     DropChar(u16),
     AppendChar(u8),
+    /// the raw bytes (payload ++ checksum) made shorter / longer *by zero bytes*: for k < 0 two payload bytes are
+    /// searched until the checksum ends in |k| zero bytes, which are then left out (a decoder that zero-fills a
+    /// fixed buffer sees the complete string); for k > 0, k zero bytes follow the valid checksum (a decoder
+    /// that reads a fixed prefix sees the complete string)
+    RawLen(i8, u8),
 }
 
 #[derive(Clone, Debug, Serialize, Deserialize)]
@@ -96,6 +101,32 @@ pub fn corrupt_for(payload: &[u8], how: &Corrupt) -> Option<String> {
             String::from_utf8(chars).unwrap()
         }
         Corrupt::AppendChar(c) => format!("{}{}", good, B58[(*c as usize) % 58] as char),
+        Corrupt::RawLen(k, salt) => {
+            if *k > 0 {
+                raw.extend(std::iter::repeat(0u8).take((*k as usize).min(3)));
+                codec::base58_encode(&raw)
+            } else {
+                let drop = ((-(*k as i32)) as usize).clamp(1, 2);
+                if payload.len() < 4 {
+                    return None;
+                }
+                let mut p = payload.to_vec();
+                let mut found = None;
+                for n in 0u32..(1 << 20) {
+                    p[1] = payload[1] ^ (n as u8) ^ *salt;
+                    p[2] = payload[2] ^ ((n >> 8) as u8);
+                    p[3] = payload[3] ^ ((n >> 16) as u8);
+                    let c = hashes::sha256d(&p);
+                    if c[4 - drop..4].iter().all(|b| *b == 0) {
+                        let mut r = p.clone();
+                        r.extend_from_slice(&c[..4 - drop]);
+                        found = Some(r);
+                        break;
+                    }
+                }
+                codec::base58_encode(&found?)
+            }
+        }
     };
     // a corruption that happens to be a valid base58check string of the same payload length is not a rejection case
     match codec::base58check_decode(&s) {
@@ -112,6 +143,7 @@ fn corruption() -> impl Strategy<Value = Corrupt> {
         3 => prop::sample::select(vec![-2i8, -1, 1, 2]).prop_map(Corrupt::Length),
         1 => any::<u16>().prop_map(Corrupt::DropChar),
         1 => (0u8..58).prop_map(Corrupt::AppendChar),
+        2 => (prop_oneof![6 => Just(-1i8), 1 => Just(-2i8), 2 => 1i8..=3], any::<u8>()).prop_map(|(k, s)| Corrupt::RawLen(k, s)),
     ]
 }
 
@@ -131,7 +163,7 @@ impl Property for C07 {
     const ID: &'static str = "C07";
 
     fn rule() -> String {
-        "Keys from the boundary set x both compression forms x every network prefix byte; 20-byte hashes with 0..20 leading zero bytes; corruptions of valid addresses and WIF strings (one base58 character replaced, one payload byte changed under the old checksum, a checksum byte changed, a valid checksum over a payload 1-2 bytes too long or short, a character dropped or appended, a wrong compression suffix); candidate public keys (valid in both forms, x not on the curve, x >= p, wrong y, the identity encoding, wrong length, every tag byte incl. the SEC1 compact and hybrid tags, any single byte overwritten). Oracle: reference secp256k1 point arithmetic / SEC1 codec, HASH160, Base58Check, WIF on num-bigint: derived public key, hash, address string for every prefix, WIF and locking script must be equal; all round trips hold; every valid encoding is accepted, every corruption rejected; from_bytes accepts exactly what the strict reference decoder accepts; get_unlocking_script succeeds (with bytes push(sig)||push(pub)) exactly for the address's own key under every prefix. Non-trivial = hash with leading zero bytes, non-zero prefix, uncompressed form, or a rejection class; distinct by hash of the serialised case.".into()
+        "Keys from the boundary set x both compression forms x every network prefix byte; 20-byte hashes with 0..20 leading zero bytes; corruptions of valid addresses and WIF strings (one base58 character replaced, one payload byte changed under the old checksum, a checksum byte changed, a valid checksum over a payload 1-2 bytes too long or short, a character dropped or appended, the raw bytes ending one or two bytes early where the checksum ends in zero bytes or continued by zero bytes after the checksum, a wrong compression suffix); candidate public keys (valid in both forms, x not on the curve, x >= p, wrong y, the identity encoding, wrong length, every tag byte incl. the SEC1 compact and hybrid tags, any single byte overwritten). Oracle: reference secp256k1 point arithmetic / SEC1 codec, HASH160, Base58Check, WIF on num-bigint: derived public key, hash, address string for every prefix, WIF and locking script must be equal; all round trips hold; every valid encoding is accepted, every corruption rejected; from_bytes accepts exactly what the strict reference decoder accepts; get_unlocking_script succeeds (with bytes push(sig)||push(pub)) exactly for the address's own key under every prefix. Non-trivial = hash with leading zero bytes, non-zero prefix, uncompressed form, or a rejection class; distinct by hash of the serialised case.".into()
     }
 
     fn assumptions() -> Vec<String> {
@@ -309,6 +341,7 @@ impl Property for C07 {
                     return Err(failure("corrupt_address_rejected", format!("Ok(hash {}) for {} ({:?})", hex::encode(a.to_pubkey_hash()), bad, how), "Err: wrong checksum or payload length"));
                 }
                 o.nt("corrupt-address");
+                o.label_if(matches!(how, Corrupt::RawLen(..)), "raw-bytes-shorter-or-longer-by-zero-bytes");
             }
             Case::CorruptWif { key, how, bad_suffix } => {
                 let d = key.d.value();
